@@ -475,11 +475,11 @@ func runClient(sc ascenario) *result {
 					}
 				}
 			}
-			// A connection drained by the client itself (address swapped away) is closed
-			// by the client without any GOAWAY from the server; after a swap only the
-			// newest connection (dialled for the current address) is judged.
-			newest := c.idx == len(snapshot())-1
-			if c.ended && len(c.goaways) == 0 && !c.endJudged && !c.swappedOut && (swaps == 0 || newest) {
+			// Once the resolver has swapped the address away, the client itself closes
+			// connections without any GOAWAY (including ones whose handshake was still
+			// in progress at the swap and that the script cannot tell apart): this
+			// sanity verdict - not part of the statement - is then not taken.
+			if c.ended && len(c.goaways) == 0 && !c.endJudged && swaps == 0 {
 				c.endJudged = true
 				v("conn-closed-without-goaway", "conn %d was closed by the client although the scripted server never sent GOAWAY", c.idx)
 			}
